@@ -1243,12 +1243,12 @@ pub fn registry() -> Vec<PropDef> {
             id: "C01",
             parts: vec![Part {
                 name: "delivery",
-                source: Source::Random { strategy: delivery_strategy, cases: cases_fn!(6000, 250000) },
+                source: Source::Random { strategy: delivery_strategy, cases: cases_fn!(6000, 120000) },
                 oracle: c01_oracle,
             },
                 Part {
                     name: "systematic",
-                    source: Source::Systematic { strategy: delivery_strategy, cases: cases_fn!(20, 30) },
+                    source: Source::Systematic { strategy: delivery_strategy, cases: cases_fn!(20, 12) },
                     oracle: c01_oracle,
                 },
             ],
@@ -1259,12 +1259,12 @@ pub fn registry() -> Vec<PropDef> {
             id: "C02",
             parts: vec![Part {
                 name: "order",
-                source: Source::Random { strategy: order_strategy, cases: cases_fn!(6000, 250000) },
+                source: Source::Random { strategy: order_strategy, cases: cases_fn!(6000, 120000) },
                 oracle: c02_oracle,
             },
                 Part {
                     name: "systematic",
-                    source: Source::Systematic { strategy: order_strategy, cases: cases_fn!(20, 30) },
+                    source: Source::Systematic { strategy: order_strategy, cases: cases_fn!(20, 12) },
                     oracle: c02_oracle,
                 },
             ],
@@ -1275,12 +1275,12 @@ pub fn registry() -> Vec<PropDef> {
             id: "C03",
             parts: vec![Part {
                 name: "capacity",
-                source: Source::Random { strategy: capacity_strategy, cases: cases_fn!(6000, 250000) },
+                source: Source::Random { strategy: capacity_strategy, cases: cases_fn!(6000, 120000) },
                 oracle: c03_oracle,
             },
                 Part {
                     name: "systematic",
-                    source: Source::Systematic { strategy: capacity_strategy, cases: cases_fn!(20, 30) },
+                    source: Source::Systematic { strategy: capacity_strategy, cases: cases_fn!(20, 12) },
                     oracle: c03_oracle,
                 },
             ],
@@ -1291,12 +1291,12 @@ pub fn registry() -> Vec<PropDef> {
             id: "C04",
             parts: vec![Part {
                 name: "values",
-                source: Source::Random { strategy: values_strategy, cases: cases_fn!(6000, 200000) },
+                source: Source::Random { strategy: values_strategy, cases: cases_fn!(6000, 100000) },
                 oracle: c04_oracle,
             },
                 Part {
                     name: "systematic",
-                    source: Source::Systematic { strategy: values_strategy, cases: cases_fn!(20, 30) },
+                    source: Source::Systematic { strategy: values_strategy, cases: cases_fn!(20, 12) },
                     oracle: c04_oracle,
                 },
             ],
@@ -1307,7 +1307,7 @@ pub fn registry() -> Vec<PropDef> {
             id: "C06",
             parts: vec![Part {
                 name: "quiescence",
-                source: Source::Random { strategy: quiescence_strategy, cases: cases_fn!(6000, 250000) },
+                source: Source::Random { strategy: quiescence_strategy, cases: cases_fn!(6000, 120000) },
                 oracle: c06_oracle,
             }],
             rule: "threads perform a bounded number of non-blocking sends/receives/clones/conversions and stop without draining; after joining them the controller probes single-threaded: fill to Full, drain every stream, refill (exactly N must be accepted), drain again; compared with the model computed from the recorded history; non-trivial = the probe ran AND calls overlapped AND the ring wrapped",
@@ -1317,12 +1317,12 @@ pub fn registry() -> Vec<PropDef> {
             id: "C10",
             parts: vec![Part {
                 name: "addstream",
-                source: Source::Random { strategy: addstream_strategy, cases: cases_fn!(6000, 250000) },
+                source: Source::Random { strategy: addstream_strategy, cases: cases_fn!(6000, 120000) },
                 oracle: c10_oracle,
             },
                 Part {
                     name: "systematic",
-                    source: Source::Systematic { strategy: addstream_strategy, cases: cases_fn!(20, 30) },
+                    source: Source::Systematic { strategy: addstream_strategy, cases: cases_fn!(20, 12) },
                     oracle: c10_oracle,
                 },
             ],
@@ -1333,12 +1333,12 @@ pub fn registry() -> Vec<PropDef> {
             id: "C11",
             parts: vec![Part {
                 name: "removal",
-                source: Source::Random { strategy: removal_strategy, cases: cases_fn!(6000, 250000) },
+                source: Source::Random { strategy: removal_strategy, cases: cases_fn!(6000, 120000) },
                 oracle: c11_oracle,
             },
                 Part {
                     name: "systematic",
-                    source: Source::Systematic { strategy: removal_strategy, cases: cases_fn!(20, 30) },
+                    source: Source::Systematic { strategy: removal_strategy, cases: cases_fn!(20, 12) },
                     oracle: c11_oracle,
                 },
             ],
@@ -1350,7 +1350,7 @@ pub fn registry() -> Vec<PropDef> {
             parts: vec![
                 Part {
                     name: "tasks",
-                    source: Source::Random { strategy: tasks_strategy, cases: cases_fn!(6000, 200000) },
+                    source: Source::Random { strategy: tasks_strategy, cases: cases_fn!(6000, 100000) },
                     oracle: c14_oracle,
                 },
                 c14_seq_part(),
@@ -1362,7 +1362,7 @@ pub fn registry() -> Vec<PropDef> {
             id: "C16",
             parts: vec![Part {
                 name: "churn",
-                source: Source::Random { strategy: churn_strategy, cases: cases_fn!(1500, 60000) },
+                source: Source::Random { strategy: churn_strategy, cases: cases_fn!(1500, 30000) },
                 oracle: c16_oracle,
             }],
             rule: "N in {1,2}: writers on the Full boundary, 1-3 threads doing 4-60 rounds of add_stream/drop, clone/drop, unsubscribe, single<->multi conversion, idle handles that never operate; every block freed through the crate's allocator shim is quarantined and every instrumented access or dereference is checked against the freed ranges; non-trivial = at least one deferred-reclamation batch was freed while another thread was inside an API call",
@@ -1373,12 +1373,12 @@ pub fn registry() -> Vec<PropDef> {
             parts: vec![
                 Part {
                     name: "teardown_seq",
-                    source: Source::Random { strategy: c17_seq_strategy, cases: cases_fn!(4000, 100000) },
+                    source: Source::Random { strategy: c17_seq_strategy, cases: cases_fn!(4000, 60000) },
                     oracle: c17_teardown_oracle,
                 },
                 Part {
                     name: "teardown_concurrent",
-                    source: Source::Random { strategy: c17_conc_strategy, cases: cases_fn!(2000, 60000) },
+                    source: Source::Random { strategy: c17_conc_strategy, cases: cases_fn!(2000, 30000) },
                     oracle: c17_teardown_oracle,
                 },
                 Part {
@@ -1394,12 +1394,12 @@ pub fn registry() -> Vec<PropDef> {
             id: "C18",
             parts: vec![Part {
                 name: "probes",
-                source: Source::Random { strategy: probe_strategy, cases: cases_fn!(6000, 200000) },
+                source: Source::Random { strategy: probe_strategy, cases: cases_fn!(6000, 100000) },
                 oracle: c18_oracle,
             },
             Part {
                 name: "probes_during_churn",
-                source: Source::Random { strategy: probe_churn_strategy, cases: cases_fn!(1500, 50000) },
+                source: Source::Random { strategy: probe_churn_strategy, cases: cases_fn!(1500, 25000) },
                 oracle: c18_oracle,
             }],
             rule: "traffic on busy/yielding queues, and handle/stream churn scenarios (enough retirements to open reclamation epochs, so that the manager locks are taken and the epoch signal is raised); at generated points one thread freezes all others wherever they are and runs a single try_send / try_recv / try_recv_view alone; oracle = the call returns within 300 of its own scheduling points and never blocks on a lock held by a frozen thread; non-trivial = the probe ran while another thread was frozen strictly inside an API call",
@@ -1410,7 +1410,7 @@ pub fn registry() -> Vec<PropDef> {
             parts: vec![
                 Part {
                     name: "seq_random",
-                    source: Source::Random { strategy: c05_random, cases: cases_fn!(5000, 150000) },
+                    source: Source::Random { strategy: c05_random, cases: cases_fn!(5000, 80000) },
                     oracle: c05_oracle,
                 },
                 Part {
@@ -1420,7 +1420,7 @@ pub fn registry() -> Vec<PropDef> {
                 },
                 Part {
                     name: "concurrent",
-                    source: Source::Random { strategy: c05_conc_strategy, cases: cases_fn!(3000, 100000) },
+                    source: Source::Random { strategy: c05_conc_strategy, cases: cases_fn!(3000, 50000) },
                     oracle: c05_conc_oracle,
                 },
             ],
@@ -1431,12 +1431,12 @@ pub fn registry() -> Vec<PropDef> {
             id: "C07",
             parts: vec![Part {
                 name: "hangup",
-                source: Source::Random { strategy: hangup_strategy, cases: cases_fn!(6000, 250000) },
+                source: Source::Random { strategy: hangup_strategy, cases: cases_fn!(6000, 120000) },
                 oracle: c07_oracle,
             },
                 Part {
                     name: "systematic",
-                    source: Source::Systematic { strategy: hangup_strategy, cases: cases_fn!(20, 30) },
+                    source: Source::Systematic { strategy: hangup_strategy, cases: cases_fn!(20, 12) },
                     oracle: c07_oracle,
                 },
             ],
@@ -1447,12 +1447,12 @@ pub fn registry() -> Vec<PropDef> {
             id: "C08",
             parts: vec![Part {
                 name: "wakeup",
-                source: Source::Random { strategy: wakeup_strategy, cases: cases_fn!(6000, 250000) },
+                source: Source::Random { strategy: wakeup_strategy, cases: cases_fn!(6000, 120000) },
                 oracle: c08_oracle,
             },
                 Part {
                     name: "systematic",
-                    source: Source::Systematic { strategy: wakeup_strategy, cases: cases_fn!(20, 30) },
+                    source: Source::Systematic { strategy: wakeup_strategy, cases: cases_fn!(20, 12) },
                     oracle: c08_oracle,
                 },
             ],
@@ -1464,7 +1464,7 @@ pub fn registry() -> Vec<PropDef> {
             parts: vec![
                 Part {
                     name: "seq_random",
-                    source: Source::Random { strategy: c09_random, cases: cases_fn!(6000, 200000) },
+                    source: Source::Random { strategy: c09_random, cases: cases_fn!(6000, 100000) },
                     oracle: c09_oracle,
                 },
                 Part {
@@ -1480,12 +1480,12 @@ pub fn registry() -> Vec<PropDef> {
             id: "C12",
             parts: vec![Part {
                 name: "population",
-                source: Source::Random { strategy: population_strategy, cases: cases_fn!(6000, 250000) },
+                source: Source::Random { strategy: population_strategy, cases: cases_fn!(6000, 120000) },
                 oracle: c12_oracle,
             },
                 Part {
                     name: "systematic",
-                    source: Source::Systematic { strategy: population_strategy, cases: cases_fn!(20, 30) },
+                    source: Source::Systematic { strategy: population_strategy, cases: cases_fn!(20, 12) },
                     oracle: c12_oracle,
                 },
             ],
@@ -1497,12 +1497,12 @@ pub fn registry() -> Vec<PropDef> {
             parts: vec![
                 Part {
                     name: "seq",
-                    source: Source::Random { strategy: c13_strategy, cases: cases_fn!(5000, 150000) },
+                    source: Source::Random { strategy: c13_strategy, cases: cases_fn!(5000, 80000) },
                     oracle: c13_oracle,
                 },
                 Part {
                     name: "sink_race",
-                    source: Source::Random { strategy: c13_conc_strategy, cases: cases_fn!(4000, 150000) },
+                    source: Source::Random { strategy: c13_conc_strategy, cases: cases_fn!(4000, 80000) },
                     oracle: c13_conc_oracle,
                 },
             ],
@@ -1514,7 +1514,7 @@ pub fn registry() -> Vec<PropDef> {
             parts: vec![
                 Part {
                     name: "seq_random",
-                    source: Source::Random { strategy: c15_random, cases: cases_fn!(5000, 150000) },
+                    source: Source::Random { strategy: c15_random, cases: cases_fn!(5000, 80000) },
                     oracle: c15_oracle,
                 },
                 Part {
@@ -1524,7 +1524,7 @@ pub fn registry() -> Vec<PropDef> {
                 },
                 Part {
                     name: "concurrent",
-                    source: Source::Random { strategy: c15_conc_strategy, cases: cases_fn!(3000, 100000) },
+                    source: Source::Random { strategy: c15_conc_strategy, cases: cases_fn!(3000, 50000) },
                     oracle: c15_conc_oracle,
                 },
             ],
@@ -1537,7 +1537,7 @@ pub fn registry() -> Vec<PropDef> {
 pub fn c14_seq_part() -> Part {
     Part {
         name: "seq_notify",
-        source: Source::Random { strategy: c15_random, cases: cases_fn!(5000, 150000) },
+        source: Source::Random { strategy: c15_random, cases: cases_fn!(5000, 80000) },
         oracle: c14_seq_oracle,
     }
 }
